@@ -60,6 +60,7 @@ type c20Case struct {
 	Expires  int      `json:"expires,omitempty"`
 	TimeOff  int      `json:"time_off,omitempty"`
 	Request  string   `json:"request,omitempty"` // human-readable form of what went on the wire (filled in on failure)
+	group    string   // cases of one group run on one worker, so that a class can stop at its first wedge
 }
 
 // c20Built is the request of a case as it goes on the wire (before signing).
@@ -1025,6 +1026,29 @@ func c20ApplyWireMut(name string, wire []byte) []byte {
 		if i := strings.LastIndex(string(wire), "x-amz-checksum-"); i >= 0 {
 			return append(append([]byte{}, wire...), wire[i:]...)
 		}
+	case strings.HasPrefix(name, "size@"):
+		// size@<k>:<value> — the size token of the k-th chunk header (0 = first) replaced
+		ks, val, _ := strings.Cut(name[5:], ":")
+		k, _ := strconv.Atoi(ks)
+		pos := 0
+		for i := 0; ; i++ {
+			end := pos
+			for end < len(wire) && wire[end] != ';' && wire[end] != '\r' && wire[end] != '\n' {
+				end++
+			}
+			if i == k {
+				return append(append(append([]byte{}, wire[:pos]...), []byte(val)...), wire[end:]...)
+			}
+			n, err := strconv.ParseInt(string(wire[pos:end]), 16, 64)
+			eol := bytes.Index(wire[end:], []byte("\r\n"))
+			if err != nil || eol < 0 || n == 0 {
+				return wire
+			}
+			pos = end + eol + 2 + int(n) + 2
+			if pos > len(wire) {
+				return wire
+			}
+		}
 	case strings.HasPrefix(name, "cut:"):
 		return c20Cut(wire, name[4:])
 	case name == "junk":
@@ -1230,4 +1254,52 @@ func c20StateMatrix() (cases []c20Case, destructive []bool) {
 		}
 	}
 	return
+}
+
+// ---------------------------------------------------------------- boundary chunk sizes
+
+var c20BoundarySizes = []string{"7fffffffffffffff", "8000000000000000", "ffffffffffffffff", "10000000000000000", "FFFFFFFFFFFFFFFF", "-1", "-8000000000000000", "+5", "0x5", "0005", "00000000000000000005", "",
+	" 5", "5 ", "zz", "7ffffffffffffffe", "80000000", "100000000", "140000001", "-0", "1_0"}
+
+// c20ChunkSizeCases: every boundary chunk size as the first and as a later chunk header, in all three
+// streaming modes, for PutObject and UploadPart, under a valid header signature (the seed signature of
+// the chunk chain is right, so the body reader is reached and parses the header).
+func c20ChunkSizeCases() []c20Case {
+	var out []c20Case
+	for _, ep := range []string{"PutObjectPlain", "UploadPartPlain"} {
+		for _, mode := range []string{"stream-signed", "stream-signed-trailer", "stream-unsigned-trailer"} {
+			for k := 0; k < 2; k++ {
+				for _, v := range c20BoundarySizes {
+					out = append(out, c20Case{Endpoint: ep, Class: "chunk-size:" + mode, Auth: mode, Cred: "root", Chunks: []int{5}, Trailer: "crc32",
+						WireMut: fmt.Sprintf("size@%d:%s", k, v), group: ep + mode})
+				}
+			}
+		}
+	}
+	return out
+}
+
+// ---------------------------------------------------------------- bucket policy with a many-star resource
+
+// the policy of bucket fzp: Allow s3:* to everybody on resources with 8, 12 and 15 `*` — the glob
+// matcher behind every access check of a non-admin account must answer in bounded time whatever the key
+func c20StarResource(k int) string { return "arn:aws:s3:::fzp/" + strings.Repeat("*a", k) + "*b" }
+
+func c20GlobPolicy() string {
+	return `{"Version":"2012-10-17","Statement":[{"Effect":"Allow","Principal":"*","Action":"s3:*","Resource":["` + c20StarResource(8) + `","` + c20StarResource(12) + `","` + c20StarResource(15) + `"]}]}`
+}
+
+// c20PolicyGlobCases: object operations by the role-user account on long keys that fail to match late.
+func c20PolicyGlobCases() []c20Case {
+	keys := []string{"aaaaaaaaaaaaaaaab", strings.Repeat("a", 200), strings.Repeat("a", 100) + "c", strings.Repeat("a", 1000), strings.Repeat("ab", 60) + "c", strings.Repeat("a", 60) + "/" + strings.Repeat("a", 60)}
+	var out []c20Case
+	for _, key := range keys {
+		for _, ep := range []string{"GetObjectPlain", "HeadObjectPlain", "PutObjectPlain", "DeleteObjectPlain", "GetObjectTagging", "GetObjectAttributes"} {
+			out = append(out, c20Case{Endpoint: ep, Class: "policy-glob", Auth: "header", Cred: "user", group: "policy-glob",
+				Muts: []c20Mut{{K: "path", V: []byte("/fzp/" + key)}}})
+		}
+		out = append(out, c20Case{Endpoint: "CopyObjectPlain", Class: "policy-glob", Auth: "header", Cred: "user", group: "policy-glob",
+			Muts: []c20Mut{{K: "path", V: []byte("/fzp/" + key)}, {K: "h", N: "x-amz-copy-source", V: []byte("fzp/" + key)}}})
+	}
+	return out
 }
